@@ -377,30 +377,31 @@ Proof.
   cbn [t_stat t_ins]. split; [reflexivity|apply app_nil_r].
 Qed.
 
-(* a buffer length larger than the bytes that remain (here: the last entry's length inflated): error, and only
-   the complete entries before it have been added *)
-Theorem tup_inflated_buffer m k v (extra : nat) : Forall entry_ok m -> len k < 4294967296 -> (0 < extra)%nat ->
-  N.of_nat (S (length m)) < 2147483648 -> N.of_nat (length v + extra) < 2147483648 ->
-  let o := tup_decode (head tMAP 0 ++ w_int32 (wrap32 (Z.of_nat (S (length m)))) 0 ++ flat_map enc_entry m ++
-                       w_string k 0 ++ head tSIMPLE 1 ++ head tBYTE 0 ++ w_int32 (wrap32 (Z.of_nat (length v + extra))) 0 ++ v) in
+(* a buffer length larger than the bytes that remain (an entry anywhere: [tail] is whatever follows its bytes):
+   error, and only the complete entries before it have been added *)
+Theorem tup_inflated_buffer m k v tail (cnt announced : nat) : Forall entry_ok m -> len k < 4294967296 ->
+  (length m < cnt)%nat -> N.of_nat cnt < 2147483648 ->
+  (length v + length tail < announced)%nat -> N.of_nat announced < 2147483648 ->
+  let o := tup_decode (head tMAP 0 ++ w_int32 (wrap32 (Z.of_nat cnt)) 0 ++ flat_map enc_entry m ++
+                       w_string k 0 ++ head tSIMPLE 1 ++ head tBYTE 0 ++ w_int32 (wrap32 (Z.of_nat announced)) 0 ++ v ++ tail) in
   t_stat o = TSErr /\ t_ins o = m.
 Proof.
-  intros Hok Hk Hx Hl Hv. unfold tup_decode, tup_decode_gen, skip_to.
+  intros Hok Hk Hc Hl Hx Hv. unfold tup_decode, tup_decode_gen, skip_to.
   rewrite fuel_for_S. rewrite seek_first by reflexivity. change (tMAP =? tMAP) with true. cbv iota.
   rewrite read_count_field by assumption.
   set (last := w_string k 0 ++ _).
-  pose proof (dec_loop_entries true true last m (S (length (flat_map enc_entry m ++ last))) 1%Z Hok) as H.
-  replace (Z.of_nat (S (length m))) with (Z.of_nat (length m) + 1)%Z by lia.
+  pose proof (dec_loop_entries true true last m (S (length (flat_map enc_entry m ++ last))) (Z.of_nat (cnt - length m)) Hok) as H.
+  replace (Z.of_nat cnt) with (Z.of_nat (length m) + Z.of_nat (cnt - length m))%Z by lia.
   rewrite H; [|rewrite app_length; pose proof (entries_length m); lia|lia|right; rewrite app_length; pose proof (entries_length m); lia].
   cbv zeta. destruct (S (length (flat_map enc_entry m ++ last)) - length m)%nat as [|f] eqn:E;
     [rewrite app_length in E; pose proof (entries_length m); lia|].
-  cbn [dec_loop]. change (1 <=? 0)%Z with false. cbv iota.
+  cbn [dec_loop]. destruct (Z.of_nat (cnt - length m) <=? 0)%Z eqn:E0; [lia|].
   assert (Hd : dec_entry true true last = EErr (len k)).
   { subst last. unfold dec_entry. rewrite fuel_for_S. rewrite roundtrip_string by (unfold len in Hk; first [reflexivity | assumption]).
     unfold dec_value. rewrite fuel_for_S. rewrite seek_first by reflexivity. change (tSIMPLE =? tSIMPLE) with true. cbv iota.
     unfold skip_to. rewrite fuel_for_S. rewrite seek_first by reflexivity. change (tBYTE =? tBYTE) with true. cbv iota.
-    rewrite read_count_field by assumption. unfold read_bytes.
-    destruct ((Z.of_nat (length v + extra) <? 0)%Z || (Z.of_nat (length v) <? Z.of_nat (length v + extra))%Z) eqn:E3; [reflexivity|lia]. }
+    rewrite read_count_field by assumption. unfold read_bytes. rewrite app_length.
+    destruct ((Z.of_nat announced <? 0)%Z || (Z.of_nat (length v + length tail) <? Z.of_nat announced)%Z) eqn:E3; [reflexivity|lia]. }
   rewrite Hd. cbn [t_stat t_ins]. split; [reflexivity|apply app_nil_r].
 Qed.
 Print Assumptions tup_inflated_count.
@@ -764,3 +765,103 @@ Proof.
   destruct (skip_to (fuel_for bs) tMAP 0 false bs) as [ty r|r| |]; try (cbn; tauto); apply Hgo; exact H.
 Qed.
 Print Assumptions tup_nothing_made_up.
+
+
+(* ================= mistyped fields are rejected, not reinterpreted (C06, second clause) ================= *)
+(* the attribute map itself: any other wire type at tag 0 *)
+Theorem tup_mistyped_map ty rest : ty < 16 -> ty <> tMAP -> t_stat (tup_decode (head ty 0 ++ rest)) = TSErr.
+Proof.
+  intros Hty Hne. unfold tup_decode, tup_decode_gen, skip_to. rewrite fuel_for_S.
+  destruct (ty =? tSE) eqn:Ese.
+  - assert (ty = tSE) as -> by lia. cbn [skip_to_no_check]. rewrite read_head2_head by (first [reflexivity | lia]).
+    change ((tSE =? tSE) || (0 <? 0)) with true. cbv iota. change (negb (0 <? 15)) with false. unfold unread. cbn [andb].
+    unfold read_count. rewrite read_head_head by (first [reflexivity | lia]). reflexivity.
+  - rewrite seek_first by (first [assumption | reflexivity]). destruct (ty =? tMAP) eqn:E; [lia|reflexivity].
+Qed.
+(* the key of an entry: anything but a string at tag 0 *)
+Lemma dec_entry_mistyped_key ty rest : ty < 16 -> ty <> tSTR1 -> ty <> tSTR4 -> dec_entry true true (head ty 0 ++ rest) = EErr 0.
+Proof.
+  intros Hty H1 H4. unfold dec_entry, r_string, with_seek. rewrite fuel_for_S.
+  destruct (ty =? tSE) eqn:Ese.
+  - assert (ty = tSE) as -> by lia. cbn [skip_to_no_check]. rewrite read_head2_head by (first [reflexivity | lia]). reflexivity.
+  - rewrite seek_first by (first [assumption | reflexivity]). unfold read_string_body.
+    destruct (ty =? tSTR4) eqn:E4; [lia|]. destruct (ty =? tSTR1) eqn:E1; [lia|reflexivity].
+Qed.
+(* the value of an entry: anything but a SimpleList at tag 1 *)
+Lemma dec_value_mistyped k ty rest : ty < 16 -> ty <> tSIMPLE -> dec_value true k (head ty 1 ++ rest) = EErr (len k).
+Proof.
+  intros Hty Hne. unfold dec_value. rewrite fuel_for_S.
+  destruct (ty =? tSE) eqn:Ese.
+  - assert (ty = tSE) as -> by lia. cbn [skip_to_no_check]. rewrite read_head2_head by (first [reflexivity | lia]). reflexivity.
+  - rewrite seek_first by (first [assumption | reflexivity]). destruct (ty =? tSIMPLE) eqn:E; [lia|reflexivity].
+Qed.
+(* the element head of the SimpleList: anything but BYTE at tag 0 *)
+Lemma dec_value_mistyped_elem k ty rest : ty < 16 -> ty <> tBYTE ->
+  dec_value true k (head tSIMPLE 1 ++ head ty 0 ++ rest) = EErr (len k).
+Proof.
+  intros Hty Hne. unfold dec_value. rewrite fuel_for_S. rewrite seek_first by reflexivity.
+  change (tSIMPLE =? tSIMPLE) with true. cbv iota. unfold skip_to. rewrite fuel_for_S.
+  destruct (ty =? tSE) eqn:Ese.
+  - assert (ty = tSE) as -> by lia. cbn [skip_to_no_check]. rewrite read_head2_head by (first [reflexivity | lia]). reflexivity.
+  - rewrite seek_first by (first [assumption | reflexivity]). destruct (ty =? tBYTE) eqn:E; [lia|reflexivity].
+Qed.
+
+(* after any complete entries, a mistyped key / value / element head makes Decode fail with exactly those entries *)
+Theorem tup_mistyped_entry m bad (cnt : nat) : Forall entry_ok m -> (length m < cnt)%nat -> N.of_nat cnt < 2147483648 ->
+  (exists a, dec_entry true true bad = EErr a) ->
+  let o := tup_decode (head tMAP 0 ++ w_int32 (wrap32 (Z.of_nat cnt)) 0 ++ flat_map enc_entry m ++ bad) in
+  t_stat o = TSErr /\ t_ins o = m.
+Proof.
+  intros Hok Hc Hl [a Hbad]. unfold tup_decode, tup_decode_gen, skip_to.
+  rewrite fuel_for_S. rewrite seek_first by reflexivity. change (tMAP =? tMAP) with true. cbv iota.
+  rewrite read_count_field by assumption.
+  pose proof (dec_loop_entries true true bad m (S (length (flat_map enc_entry m ++ bad))) (Z.of_nat (cnt - length m)) Hok) as H.
+  replace (Z.of_nat cnt) with (Z.of_nat (length m) + Z.of_nat (cnt - length m))%Z by lia.
+  rewrite H; [|rewrite app_length; pose proof (entries_length m); lia|lia|right; rewrite app_length; pose proof (entries_length m); lia].
+  cbv zeta. destruct (S (length (flat_map enc_entry m ++ bad)) - length m)%nat as [|f] eqn:E;
+    [rewrite app_length in E; pose proof (entries_length m); lia|].
+  cbn [dec_loop]. destruct (Z.of_nat (cnt - length m) <=? 0)%Z eqn:E0; [lia|].
+  rewrite Hbad. cbn [t_stat t_ins]. split; [reflexivity|apply app_nil_r].
+Qed.
+Lemma dec_entry_after_key k q a : len k < 4294967296 -> dec_value true k q = EErr a -> dec_entry true true (w_string k 0 ++ q) = EErr a.
+Proof.
+  intros Hk H. unfold dec_entry. rewrite fuel_for_S. rewrite roundtrip_string by (unfold len in Hk; first [reflexivity | assumption]). exact H.
+Qed.
+Theorem tup_mistyped m k ty rest (cnt : nat) : Forall entry_ok m -> (length m < cnt)%nat -> N.of_nat cnt < 2147483648 ->
+  len k < 4294967296 -> ty < 16 ->
+  let dec tail := tup_decode (head tMAP 0 ++ w_int32 (wrap32 (Z.of_nat cnt)) 0 ++ flat_map enc_entry m ++ tail) in
+  (ty <> tSTR1 -> ty <> tSTR4 -> t_stat (dec (head ty 0 ++ rest)) = TSErr /\ t_ins (dec (head ty 0 ++ rest)) = m) /\
+  (ty <> tSIMPLE -> t_stat (dec (w_string k 0 ++ head ty 1 ++ rest)) = TSErr /\ t_ins (dec (w_string k 0 ++ head ty 1 ++ rest)) = m) /\
+  (ty <> tBYTE -> t_stat (dec (w_string k 0 ++ head tSIMPLE 1 ++ head ty 0 ++ rest)) = TSErr /\
+                  t_ins (dec (w_string k 0 ++ head tSIMPLE 1 ++ head ty 0 ++ rest)) = m).
+Proof.
+  intros Hok Hc Hl Hk Hty. cbv zeta. repeat split; intros.
+  all: try (apply (tup_mistyped_entry m _ cnt Hok Hc Hl); eexists;
+            first [ apply dec_entry_mistyped_key; assumption
+                  | apply dec_entry_after_key; [assumption|apply dec_value_mistyped; assumption]
+                  | apply dec_entry_after_key; [assumption|apply dec_value_mistyped_elem; assumption] ]).
+Qed.
+Print Assumptions tup_mistyped_map.
+Print Assumptions tup_mistyped.
+
+(* concrete instances of the hypotheses of the theorems above *)
+Definition ex_m : attrs := [([97], [1; 2; 3]); ([], []); ([255; 0], repeat 7 300)].
+Example ex_m_ok : attrs_ok ex_m.
+Proof. split; [cbn; lia|repeat constructor; cbn; lia]. Qed.
+Example tup_truncated_ex :
+  pprefix (firstn 20 (tup_encode ex_m)) (tup_encode ex_m) /\
+  t_stat (tup_decode (firstn 20 (tup_encode ex_m))) = TSErr /\ t_ins (tup_decode (firstn 20 (tup_encode ex_m))) = [([97], [1; 2; 3]); ([], [])].
+Proof.
+  split; [exists (skipn 20 (tup_encode ex_m)); split; [vm_compute; discriminate|symmetry; apply firstn_skipn]|].
+  vm_compute. split; reflexivity.
+Qed.
+Example tup_inflated_count_ex :
+  t_stat (tup_decode (head tMAP 0 ++ w_int32 (wrap32 (Z.of_nat (length ex_m + 2))) 0 ++ flat_map enc_entry ex_m)) = TSErr.
+Proof. vm_compute. reflexivity. Qed.
+Example tup_mistyped_ex :
+  t_stat (tup_decode (head tMAP 0 ++ w_int32 1 0 ++ w_string [97] 0 ++ head tLIST 1 ++ [0; 1; 0; 120])) = TSErr /\
+  t_stat (tup_decode (head tLIST 0 ++ w_int32 1 0 ++ enc_entry ([97], [120]))) = TSErr.
+Proof. vm_compute. split; reflexivity. Qed.
+Example tup_nothing_made_up_ex :   (* an input that is no encoder's output: tag-0 junk between key and value, trailing bytes *)
+  t_ins (tup_decode [8; 0; 1; 6; 1; 97; 0; 7; 12; 29; 0; 0; 2; 120; 121; 99]) = [([97], [120; 121])].
+Proof. vm_compute. reflexivity. Qed.
